@@ -176,5 +176,46 @@ Section Analyses.
           end
       end
     else Some (theta, flap, s).
+
+  (* scene.py 2376-2503 (state_derivatives / _determine_state_derivs): one row of the table.  The state is handed to set_state as
+     (position, body-fixed velocity, attitude, body rates); a component is moved by +d and then by -2d; for the attitude the quaternion is
+     multiplied by a small rotation about one body axis and the body-fixed velocity is turned with it, so that the Earth-fixed velocity
+     stays what it was.  F returns the dimensional [Fx; Fy; Fz; Mx; My; Mz]. *)
+  Definition vbump (v : v3 T) (i : nat) (d : T) : v3 T :=
+    match i with 0 => V3 (vx v + d) (vy v) (vz v) | 1 => V3 (vx v) (vy v + d) (vz v) | _ => V3 (vx v) (vy v) (vz v + d) end.
+  Definition from_body (p vb : v3 T) (q : quat T) (w : v3 T) (c : list T) : ast := mk_ast (quat_inv_trans q vb) w p q c.
+  Inductive svar := SVel | SPos | SRate.
+  (* what is handed to set_state: (position, body-fixed velocity, attitude, body rates) *)
+  Definition sargs := (v3 T * v3 T * quat T * v3 T)%type.
+  Definition of_args (a : sargs) (c : list T) : ast := let '(p, vb, q, w) := a in from_body p vb q w c.
+  Definition sd_args (s : ast) (var : svar) (i : nat) (d : T) : sargs :=
+    let vb := quat_trans (s_q s) (s_v s) in
+    match var with
+    | SVel => (s_p s, vbump vb i d, s_q s, s_w s)
+    | SPos => (vbump (s_p s) i d, vb, s_q s, s_w s)
+    | SRate => (s_p s, vb, s_q s, vbump (s_w s) i d)
+    end.
+  (* the backward state is reached from the forward one: (x + d) - 2 d *)
+  Definition sd_args_b (s : ast) (var : svar) (i : nat) (d : T) : sargs :=
+    let vb := quat_trans (s_q s) (s_v s) in
+    match var with
+    | SVel => (s_p s, vbump (vbump vb i d) i (- (nofZ 2 * d)), s_q s, s_w s)
+    | SPos => (vbump (vbump (s_p s) i d) i (- (nofZ 2 * d)), vb, s_q s, s_w s)
+    | SRate => (s_p s, vb, s_q s, vbump (vbump (s_w s) i d) i (- (nofZ 2 * d)))
+    end.
+  Definition sd_state (s : ast) (var : svar) (i : nat) (d : T) : ast := of_args (sd_args s var i d) (s_c s).
+  Definition sd_row (s : ast) (var : svar) (i : nat) (d : T) : list T :=
+    cdiff ((n1 / nofZ 2) / d) (F (of_args (sd_args s var i d) (s_c s))) (F (of_args (sd_args_b s var i d) (s_c s))).
+  Definition dq_of (i : nat) (e : T) : quat T :=
+    let h := (n1 / nofZ 2) * e in
+    quat_normalize (match i with 0 => Q4 n1 h n0 n0 | 1 => Q4 n1 n0 h n0 | _ => Q4 n1 n0 n0 h end).
+  Definition sd_args_q (s : ast) (i : nat) (e : T) (fwd : bool) : sargs :=
+    let vb := quat_trans (s_q s) (s_v s) in
+    let dq := dq_of i e in
+    if fwd then (s_p s, quat_trans dq vb, quat_mult (s_q s) dq, s_w s)
+    else (s_p s, quat_inv_trans dq vb, quat_mult (s_q s) (quat_conj dq), s_w s).
+  Definition sd_state_q (s : ast) (i : nat) (e : T) (fwd : bool) : ast := of_args (sd_args_q s i e fwd) (s_c s).
+  Definition sd_row_q (s : ast) (i : nat) (e : T) : list T :=
+    cdiff ((n1 / nofZ 2) / e) (F (sd_state_q s i e true)) (F (sd_state_q s i e false)).
 End Analyses.
 Arguments ast T : clear implicits.
